@@ -7,6 +7,8 @@ A case is a plain JSON dict (replayable):
   cycles      [{update: bool, k_more: int}]          one reload (+explicit store) per entry, optionally
                                                      followed by further loop iterations on the RELOADED experiment
   emptied     plan of "explicitly empty" list options (see _add_explicit_empties), [] for ~45 % of the cases
+  folders     None or top-level folders of the package (standalone FlowIR file + manifest with :copy / :link and
+              nested targets, or folders / symlinks inside a package directory) + direct references into them
 Packages mix: 1-3 platforms, global/stage/component variables that refer to each other, platform
 overrides of variables / environments / blueprint / component `override`, user variable files whose
 values look like variable references, replication through variables, a DoWhile document (shapes of the
@@ -197,6 +199,54 @@ def _add_explicit_empties(r, flowir, dowhile, docs, platform, n_kinds):
     return plan
 
 
+# ----------------------------------------------------------------------------- top-level folders (manifest)
+# A package may bring its own top-level folders into the instance: a standalone FlowIR file + manifest
+# ({target: "<source>:copy|link"}, nested targets allowed) or a package directory that simply contains them
+# (real directories or symbolic links to directories).  Components may reference files / folders in there
+# DIRECTLY (`shared/message.txt:copy`); the loader tells such a reference from a component reference only by
+# knowing the top-level folders.  Names include ones that look like component names.
+FOLDER_NAMES = ["shared", "assets", "plainz", "srcs", "foll9", "agg_in", "stage0files", "work2"]
+FOLDER_FILES = ["message.txt", "table.csv", "sub/deep.txt"]
+
+
+def _add_toplevel_folders(r, flowir, idx):
+    """Returns {form: 'file'|'dir', folders: [{name, method, nested: None | {name, method}}], refs: [...]} and adds
+    the direct references (references + arguments) to 1-3 components of the main document."""
+    main = [c for c in flowir["components"] if "$import" not in c]
+    taken = {c["name"] for c in flowir["components"]}
+    names = [n for n in FOLDER_NAMES if n not in taken]
+    r.shuffle(names)
+    form = "file" if r.random() < 0.65 else "dir"
+    folders = []
+    for name in names[:r.randint(1, 3)]:
+        method = "link" if r.random() < 0.6 else "copy"
+        if not any(f["method"] == "link" for f in folders) and len(folders) == 0 and r.random() < 0.5:
+            method = "link"
+        nested = None
+        if form == "file" and method == "copy" and r.random() < 0.5:
+            # nested manifest key: <name>/extra is populated from another source, the parent is a real directory
+            nested = {"name": "extra", "method": r.choice(["link", "copy"])}
+        folders.append({"name": name, "method": method, "nested": nested})
+    refs = []
+    for c in r.sample(main, min(len(main), r.randint(1, 3))):
+        used = set()
+        for _ in range(r.randint(1, 2)):
+            f = r.choice(folders)
+            paths = [f["name"], "%s/%s" % (f["name"], r.choice(FOLDER_FILES)), "%s/sub" % f["name"]]
+            if f["nested"]:
+                paths.append("%s/extra/%s" % (f["name"], r.choice(FOLDER_FILES)))
+            path = r.choice(paths)
+            if path in used:
+                continue
+            used.add(path)
+            ref = "%s:%s" % (path, r.choice(["ref", "copy", "link"]))
+            c.setdefault("references", []).append(ref)
+            cmd = c.setdefault("command", {})
+            cmd["arguments"] = (cmd.get("arguments", "") + " " + ref).strip()
+            refs.append({"component": c["name"], "ref": ref, "folder": f["name"], "method": f["method"]})
+    return {"form": form, "folders": folders, "refs": refs}
+
+
 def draw_case(r, idx: int, max_k: int) -> Dict[str, Any]:
     with_loop = (idx % 3 != 2)
     shape = None
@@ -355,14 +405,22 @@ def draw_case(r, idx: int, max_k: int) -> Dict[str, Any]:
     emptied = []
     if r_empty.random() < 0.55:
         emptied = _add_explicit_empties(r_empty, flowir, dowhile, docs, platform, r_empty.randint(1, 3))
-    return {"emptied": emptied, "variant": variant, "docs": docs, "default_reload_probe": probe, "idx": idx, "flowir": flowir, "dowhile": dowhile, "uservars": uservars, "platform": platform,
+    # top-level folders brought in by a manifest / contained in the package directory (own stream, drawn last)
+    r_fold = random.Random(r.getrandbits(64))
+    folders = None
+    if r_fold.random() < 0.45:
+        folders = _add_toplevel_folders(r_fold, flowir, idx)
+    return {"folders": folders, "emptied": emptied, "variant": variant, "docs": docs, "default_reload_probe": probe, "idx": idx, "flowir": flowir, "dowhile": dowhile, "uservars": uservars, "platform": platform,
             "k0": k0, "cycles": cycles, "with_loop": with_loop}
 
 
 def class_key(case: Dict[str, Any]) -> str:
     f = case["flowir"]
     comps = f["components"] + ((case["dowhile"] or {}).get("components", []))
-    return "%s|plats%d|sel%s|loop%d|k0=%s|cyc%s|uv%d|ovr%d|repl%d|bp%d|envp%d|empty:%s" % (
+    fo = case.get("folders")
+    fkey = "-" if not fo else "%s:%s%s" % (fo["form"], "+".join(sorted({f["method"] for f in fo["folders"]})),
+                                          "+nested" if any(f["nested"] for f in fo["folders"]) else "")
+    return "%s|plats%d|sel%s|loop%d|k0=%s|cyc%s|uv%d|ovr%d|repl%d|bp%d|envp%d|empty:%s|folders:%s" % (
         case.get("variant", "?"), len(f["platforms"]), "D" if case["platform"] is None else "P", int(case["with_loop"]),
         "0" if case["k0"] == 0 else ("<10" if case["k0"] < 10 else ">=10"),
         "%d%s%s" % (len(case["cycles"]), "U" if any(c["update"] for c in case["cycles"]) else "n",
@@ -370,4 +428,4 @@ def class_key(case: Dict[str, Any]) -> str:
         len(case["uservars"]), int(any("override" in c for c in comps)),
         int(any("replicate" in c.get("workflowAttributes", {}) for c in comps)),
         int("blueprint" in f), int(len(f.get("environments", {})) > 1),
-        "+".join(sorted({e["kind"] for e in case.get("emptied") or []})) or "-")
+        "+".join(sorted({e["kind"] for e in case.get("emptied") or []})) or "-", fkey)
